@@ -308,6 +308,32 @@ func init() {
 		}
 		panic(engineErr{"reflect.Value.Elem"})
 	}
+	// Pointer / UnsafePointer of a func value is the CODE pointer: equal for every closure
+	// made from the same function literal, whatever it captured (Go's documented behaviour)
+	codeID := map[*ssa.Function]uintptr{}
+	ptrOf := func(fr *frame, a []value) value {
+		b := rboxOf(a[0])
+		switch x := b.v.(type) {
+		case *ssa.Function:
+			if x == nil {
+				return uintptr(0)
+			}
+			if _, ok := codeID[x]; !ok {
+				codeID[x] = uintptr(0x10000 + 16*len(codeID))
+			}
+			return codeID[x]
+		case *closure:
+			if x == nil {
+				return uintptr(0)
+			}
+			if _, ok := codeID[x.Fn]; !ok {
+				codeID[x.Fn] = uintptr(0x10000 + 16*len(codeID))
+			}
+			return codeID[x.Fn]
+		}
+		panic(engineErr{"reflect.Value.Pointer of a non-func value is outside the reflect model"})
+	}
+	intrinsics["(reflect.Value).Pointer"] = ptrOf
 	intrinsics["(reflect.Value).IsValid"] = func(fr *frame, a []value) value { return rboxOf(a[0]).typ != nil }
 	intrinsics["(reflect.Value).Interface"] = func(fr *frame, a []value) value {
 		b := rboxOf(a[0])
